@@ -224,3 +224,67 @@ Proof.
   eexists. split; [reflexivity|]. unfold kv_setval. rewrite H, kv_get_add_same. rewrite join_split_nul. reflexivity.
 Qed.
 Print Assumptions hex_field_decodes.
+
+(* ---------- Data() of the decoded record types: the common steps leave a map without their keys alone,
+   so Data() is the type's own decoder applied to the extracted fields ---------- *)
+Definition common_keys : list string := ["ses"; "old-auid"; "auid"; "subj"; "success"; "res"; "exit"; "key"; "cwd"].
+Definition untouched (m : kvlist) : Prop := forall t, In t common_keys -> kv_get (L t) m = None.
+Lemma common_steps_identity m : untouched m ->
+  opt_or (hex_field "cwd" m) m = m /\ do_key m = (m, []) /\ do_exit m = m /\ do_result m = m /\ selinux_ctx "subj" m = m /\
+  normalize_unset "ses" m = m /\ normalize_unset "old-auid" m = m /\ normalize_unset "auid" m = m.
+Proof.
+  intros H. unfold hex_field, do_key, do_exit, do_result, selinux_ctx, normalize_unset.
+  rewrite !H by (cbn; tauto). repeat split; reflexivity.
+Qed.
+Theorem enrich_execve m0 : untouched m0 -> enrich MsgTypes.AUDIT_EXECVE m0 = option_map (fun m => (m, [])) (do_execve m0).
+Proof.
+  intros H. destruct (common_steps_identity m0 H) as (H8 & H7 & H6 & H5 & H4 & H1 & H2 & H3).
+  unfold enrich. rewrite H3, H2, H1, H4, H5, H6, H7, H8. reflexivity.
+Qed.
+Theorem enrich_sockaddr m0 : untouched m0 -> enrich MsgTypes.AUDIT_SOCKADDR m0 = option_map (fun m => (m, [])) (do_saddr m0).
+Proof.
+  intros H. destruct (common_steps_identity m0 H) as (H8 & H7 & H6 & H5 & H4 & H1 & H2 & H3).
+  unfold enrich. rewrite H3, H2, H1, H4, H5, H6, H7, H8. reflexivity.
+Qed.
+Theorem enrich_proctitle m0 : untouched m0 -> enrich MsgTypes.AUDIT_PROCTITLE m0 = option_map (fun m => (m, [])) (hex_field "proctitle" m0).
+Proof.
+  intros H. destruct (common_steps_identity m0 H) as (H8 & H7 & H6 & H5 & H4 & H1 & H2 & H3).
+  unfold enrich. rewrite H3, H2, H1, H4, H5, H6, H7, H8. reflexivity.
+Qed.
+
+(* the extracted map of a kernel-style body, as enrichData receives it *)
+Definition fields_map (fs : list (str * fval)) : kvlist :=
+  rev (fold_left (fun a f => kv_add (fst f) (text_of (snd f), value_of (snd f)) a) fs []).
+Definition no_common_key (fs : list (str * fval)) : Prop := forall t, In t common_keys -> ~ In (L t) (map fst fs).
+Lemma fields_map_untouched fs : Forall field_ok fs -> Forall ordinary fs -> no_common_key fs -> untouched (fields_map fs).
+Proof.
+  intros Hok Hord Hn t Ht. unfold fields_map. rewrite kv_get_rev by (apply fold_add_nodup; constructor).
+  rewrite fold_fields; auto.
+Qed.
+Definition render (m : kvlist) : list (str * str) := map (fun e => (fst e, snd (snd e))) m.
+Definition decoder_of (ty : N) : option (kvlist -> option kvlist) :=
+  if (ty =? MsgTypes.AUDIT_EXECVE)%N then Some do_execve
+  else if (ty =? MsgTypes.AUDIT_SOCKADDR)%N then Some do_saddr
+  else if (ty =? MsgTypes.AUDIT_PROCTITLE)%N then Some (hex_field "proctitle")
+  else None.
+Theorem data_of_decoded_body ty dec raw off fs :
+  decoder_of ty = Some dec -> skipn off raw = body fs -> Forall field_ok fs -> Forall ordinary fs -> no_common_key fs ->
+  data_of ty raw (Some off) = option_map (fun m => (render m, [])) (dec (fields_map fs)).
+Proof.
+  intros Hd Hraw Hok Hord Hn. pose proof (fields_map_untouched fs Hok Hord Hn) as Hu.
+  unfold decoder_of in Hd.
+  destruct (N.eqb_spec ty MsgTypes.AUDIT_EXECVE) as [->|_].
+  { injection Hd as <-. unfold data_of. rewrite Hraw. change (normalize MsgTypes.AUDIT_EXECVE (body fs)) with (body fs).
+    rewrite extract_as_fold by auto. fold (fields_map fs). rewrite (enrich_execve _ Hu). destruct (do_execve (fields_map fs)); reflexivity. }
+  destruct (N.eqb_spec ty MsgTypes.AUDIT_SOCKADDR) as [->|_].
+  { injection Hd as <-. unfold data_of. rewrite Hraw. change (normalize MsgTypes.AUDIT_SOCKADDR (body fs)) with (body fs).
+    rewrite extract_as_fold by auto. fold (fields_map fs). rewrite (enrich_sockaddr _ Hu). destruct (do_saddr (fields_map fs)); reflexivity. }
+  destruct (N.eqb_spec ty MsgTypes.AUDIT_PROCTITLE) as [->|_]; [|discriminate].
+  injection Hd as <-. unfold data_of. rewrite Hraw. change (normalize MsgTypes.AUDIT_PROCTITLE (body fs)) with (body fs).
+  rewrite extract_as_fold by auto. fold (fields_map fs). rewrite (enrich_proctitle _ Hu). destruct (hex_field "proctitle" (fields_map fs)); reflexivity.
+Qed.
+Example data_of_decoded_body_applies :
+  decoder_of 1309%N = Some do_execve /\
+  no_common_key [(L "argc", Plain (L "2")); (L "a0", Quoted (L "ls")); (L "a1", Plain (L "2D6C2061"))].
+Proof. split; [reflexivity|]. intros t Ht C. cbn in Ht, C. repeat (destruct Ht as [<-|Ht]; [cbn in C; intuition discriminate|]). contradiction. Qed.
+Print Assumptions data_of_decoded_body.
